@@ -16,7 +16,15 @@
     has a provenance, every stable mapping is reported, no snapshot demanded of a Range; the whole exported API of
     util/sync2/map.go, util/list/concurrent_set.go and util/list/generic_concurrent_set.go is exercised, and the definition
     registry of container/support (GetMetaOrRegister / RegisterMeta / GetMetaByName / GetMetas), which the parallel definition
-    scan shares, is a fourth target; every distinct observation is evaluated by Check_C20.stress_check / stress_oracle in Coq."""
+    scan shares, is a fourth target; every distinct observation is evaluated by Check_C20.stress_check / stress_oracle in Coq.
+(6) every stream builds its container in every legal way (CTORS: the constructor, and - sync2.Map and ConcurrentSets are
+    exported structs with a usable zero value - a declared variable, a struct field, an embedded field, a slice element,
+    new(T), a composite literal); containers that were not made by the constructor mostly start EMPTY, so that their very
+    first operations are the concurrent ones (spin barrier).
+(7) the library's own logger: a share of the race-detector starts / shutdowns runs the container at a level at which the
+    library's logger really prints (output sent to a discarded sink), and the log stream (harness/cmd/c20/logstream.go)
+    lets several goroutines print through shared syslog loggers: no race, and the output of every round is an interleaving
+    of the goroutines' line sequences (Model/Merge.v, Check_C20.log_ok)."""
 import glob
 import json
 import os
@@ -103,6 +111,18 @@ def mutating(o):
 
 # ---------------------------------------------------------------------------------------------- generators
 
+# how a container may be obtained (harness/cmd/c20/ctor.go); only constructions that exist on the unchanged tree
+CTORS = {"map": ["new", "var", "field", "embed", "elem", "newexpr", "lit"],
+         "cset": ["new", "var", "field", "embed", "elem", "newexpr", "lit"],
+         "gset": ["new"], "reg": ["new"]}
+
+
+def pick_ctor(rng, target):
+    """half of the containers that have a usable zero value are NOT made by their constructor"""
+    cs = CTORS[target]
+    return rng.choice(cs[1:]) if len(cs) > 1 and rng.random() < 0.5 else cs[0]
+
+
 def gen_seq(rng, cid):
     target = rng.choice(["map", "map", "cset", "gset"])
     n = rng.choice([0, 1, 2, 4, 6, 9, 12])
@@ -113,7 +133,7 @@ def gen_seq(rng, cid):
             ops.append({"op": rng.choice(MAP_OPS), "k": rng.randrange(nk), "v": rng.randint(1, 5)})
         else:
             ops.append({"op": rng.choice(SET_OPS), "k": rng.randrange(nk), "v": 0})
-    return {"id": cid, "kind": "seq", "target": target, "ops": ops}
+    return {"id": cid, "kind": "seq", "target": target, "ctor": pick_ctor(rng, target), "ops": ops}
 
 
 def rand_op(rng, target, nk, allow_range=True):
@@ -171,10 +191,12 @@ def gen_hist(rng, cid):
         target = rng.choice(["map", "map", "gset"])
         threads = [{"start": "init", "ops": [rand_op(rng, target, 2) for _ in range(rng.choice([1, 2, 3]))]}
                    for _ in range(rng.choice([2, 3]))]
-    return {"id": cid, "kind": "hist", "tpl": tpl, "target": target, "threads": threads}
+    # free-running threads are released together: the first operations of the fresh container are concurrent ones
+    return {"id": cid, "kind": "hist", "tpl": tpl, "target": target, "ctor": pick_ctor(rng, target),
+            "barrier": tpl == "free" and rng.random() < 0.8, "threads": threads}
 
 
-def gen_race(rng, cid, force_multi=False):
+def gen_race(rng, cid, force_multi=False, logged=None):
     n = rng.randint(1, 8)
     r = rng.random()
     if force_multi or r < 0.45:
@@ -185,9 +207,30 @@ def gen_race(rng, cid, force_multi=False):
         nf = 0
     nf = min(nf, n)
     closers = rng.choice([0, 1, 2, 3, 5, 8])
+    nfc = rng.randint(0, closers)
+    # the level of the library's own logger: "" = silenced (LvFatal, nothing is ever formatted); otherwise the logger
+    # really prints (to a discarded sink) what the goroutines of the two phases report
+    log_lv = rng.choice(LOG_LEVELS) if (logged if logged is not None else rng.random() < 0.5) else ""
+    if log_lv and rng.random() < 0.5:
+        # a shutdown in which several failing closers report at once (needs a start that succeeds)
+        nf, closers = 0, max(closers, 2)
+        nfc = rng.randint(2, closers)
     return {"id": cid, "kind": "race", "n": n, "fail_scan": sorted(rng.sample(range(n), nf)), "closers": closers,
-            "fail_close": sorted(rng.sample(range(closers), rng.randint(0, closers))),
-            "scanners": rng.choice([1, 1, 2]), "concurrent": rng.choice([0, 0, 4])}
+            "fail_close": sorted(rng.sample(range(closers), nfc)),
+            "scanners": rng.choice([1, 1, 2]), "concurrent": rng.choice([0, 0, 4]), "log_lv": log_lv}
+
+
+LOG_LEVELS = ["trace", "trace", "debug", "debug", "info", "warn", "error", "error"]
+
+
+def race_nlogged(c):
+    """how many goroutines of one phase report through the library's printing logger at once: the failing scanners'
+    goroutines (the start then fails and nothing is closed), else the failing closers' goroutines"""
+    if not c.get("log_lv"):
+        return 0
+    if c["fail_scan"] and c["scanners"]:
+        return len(c["fail_scan"])
+    return len(c["fail_close"])
 
 
 # ---- stress: real parallelism ---------------------------------------------------------------------------------
@@ -274,11 +317,12 @@ STRESS_TARGETS = ["map", "cset", "gset", "reg"]
 STRESS_WORKLOADS = ["lanes", "disjoint", "disjoint", "shared", "shared", "tiny"]
 
 
-def gen_stress(rng, cid, workload=None, target=None):
+def gen_stress(rng, cid, workload=None, target=None, ctor=None):
     target = target or rng.choice(STRESS_TARGETS)
     wl = workload or rng.choice(STRESS_WORKLOADS)
     # rounds: per child run; the normal build is ~50x faster than the -race build and runs plain_factor times as many
-    c = {"id": cid, "kind": "stress", "target": target, "workload": wl, "width": 0, "plain_factor": 1}
+    c = {"id": cid, "kind": "stress", "target": target, "workload": wl, "width": 0, "plain_factor": 1,
+         "ctor": ctor if ctor in CTORS[target] else pick_ctor(rng, target)}
     reg = target == "reg"
     if wl == "lanes":
         # disjoint key ranges and only operations whose results are determined by the goroutine's own program: every
@@ -318,6 +362,10 @@ def gen_stress(rng, cid, workload=None, target=None):
     init_keys = [k for k in range(nk) if rng.random() < (0.3 if wl != "tiny" else 0.25)]
     if wl == "shared":   # a key whose only writers are load-or-stores starts absent
         init_keys = [k for k in init_keys if c["klass"][k] != "once"]
+    if c["ctor"] != "new" and rng.random() < 0.8:
+        init_keys = []   # nothing touches a declared (zero-value) container before the barrier opens
+    if c["ctor"] != "new" and wl in ("lanes", "tiny"):
+        c["rounds"] *= 2   # every round is a fresh container: more first operations
     c["init"] = [[k, INIT_V if target == "map" else 0] for k in init_keys]
     c["fin"] = _stress_fin(rng, target, nk)
     if reg:   # every registering call passes its own component: the operation's v identifies the definition built from it
@@ -340,7 +388,7 @@ def gen_stress(rng, cid, workload=None, target=None):
 
 # ---- timed scans: Range / ToArray / ForEach / Load against concurrent Delete / Store of the same few keys -----------
 
-def gen_scan(rng, cid, target=None, quick=True, scale=3):
+def gen_scan(rng, cid, target=None, quick=True, scale=3, ctor=None):
     """ns scanners (mostly full scans, some stopped early, some point reads) and nc churners (store / delete /
     load-or-store on nk shared keys) released together; nstable further keys are installed at the start and never touched
     (every full scan has to report them).  Every value stored is unique in the case and never the zero value, so the
@@ -348,7 +396,11 @@ def gen_scan(rng, cid, target=None, quick=True, scale=3):
     operations, 60-180 churner operations) for the goroutines to really run at the same time in a good part of the rounds;
     the driver reports the `emit` most contended rounds and the rounds its pre-screen flags."""
     target = target or rng.choice(["map", "map", "map", "cset", "gset"])
+    ctor = ctor if ctor in CTORS[target] else pick_ctor(rng, target)
     nk, nstable = rng.choice([1, 2, 2, 3, 4]), rng.choice([0, 1, 1, 2])
+    empty = ctor != "new" and rng.random() < 0.7   # a declared container that nothing touches before the barrier opens
+    if empty:
+        nstable = 0
     ns, nc = rng.choice([1, 2, 2]), rng.choice([1, 2, 2, 3])
     nscan, nchurn = scale * rng.choice([12, 20, 30]), scale * rng.choice([20, 40, 60])
     ismap = target == "map"
@@ -360,7 +412,7 @@ def gen_scan(rng, cid, target=None, quick=True, scale=3):
 
     keys = list(range(nk))
     st, rm = ("store", "delete") if ismap else ("put", "remove")
-    init = [[k, fresh()] for k in keys if rng.random() < 0.6] + [[nk + j, fresh()] for j in range(nstable)]
+    init = [[k, fresh()] for k in keys if rng.random() < 0.6 and not empty] + [[nk + j, fresh()] for j in range(nstable)]
     progs = []
     for _ in range(ns):
         p = []
@@ -384,9 +436,121 @@ def gen_scan(rng, cid, target=None, quick=True, scale=3):
                 op = rng.choice([st, st, rm, rm, "los", "losf", "load"] if ismap else [st, st, rm, rm, "exists"])
             p.append({"op": op, "k": k, "v": fresh()} if op in ("store", "los", "losf") else {"op": op, "k": k})
         progs.append(p)
-    return {"id": cid, "kind": "scan", "target": target, "nkeys": nk + nstable, "churn_keys": nk, "stable_keys": nstable,
+    return {"id": cid, "kind": "scan", "target": target, "ctor": ctor, "nkeys": nk + nstable, "churn_keys": nk, "stable_keys": nstable,
             "scanners": ns, "churners": nc, "init": init, "progs": progs, "fin": [], "timed": True,
             "rounds": 400 if quick else 1000, "emit": 2}
+
+
+# ---- the library's own logger under concurrent use ------------------------------------------------------------------
+
+LV_NUM = {"trace": 1, "debug": 2, "info": 3, "warn": 4, "error": 5}
+LV_MARK = {"trace": "[TRACE]", "debug": "[DEBUG]", "info": "[ INFO]", "warn": "[ WARN]", "error": "[ERROR]"}
+LOG_ALPHABET = "abcdefghijklmnopqrstuvwxyz0123456789-_.:/ "
+
+
+def _log_text(rng):
+    n = rng.choice([1, 3, 8, 8, 20, 60, 200, 600])
+    return "".join(rng.choice(LOG_ALPHABET) for _ in range(n)).strip() or "x"
+
+
+def gen_log(rng, cid, quick=True):
+    """G goroutines, each with a list of log calls (every level, the formatting and the Println variant) on shared
+    loggers: logger 0 = the package-level functions (the root logger), the others = prefix chains resolved through
+    syslog.Pref at every call (the cached logger of the first prefix, `.Pref(...)` for the rest).  Operands: strings, ints,
+    error / Stringer values whose Error() / String() yields the processor.  Every printed line carries the token g<g>i<i>
+    of its call, so that the lines of one case are pairwise different."""
+    lv = rng.choice(["trace", "debug", "debug", "info", "error"])
+    nlog = rng.choice([1, 1, 2, 3])
+    names = ["Application", "ComponentFactory", "Scanner", "SingletonRegistry"]
+    loggers = [[names[j]] + (["sub%d" % j] if rng.random() < 0.25 else []) for j in range(nlog)]
+    G = rng.choice([2, 3, 4, 6, 8])
+    one = rng.random() < 0.6    # everybody through one logger (what App.Close does)
+    the_one = rng.randint(0, nlog)
+    progs = []
+    for g in range(G):
+        prog = []
+        for i in range(rng.randint(2, 10)):
+            l = the_one if one else rng.randint(0, nlog)
+            lvl = rng.choice([x for x in LV_NUM if LV_NUM[x] >= LV_NUM[lv]] * 4 + list(LV_NUM))
+            f = rng.random() < 0.6
+            args = []
+            for _ in range(rng.choice([0, 1, 1, 2, 3])):
+                k = rng.choice("sdeg" if rng.random() < 0.5 else "eg")
+                args.append({"k": k, "s": _log_text(rng), "n": rng.randrange(100000)})
+            token = "g%di%d" % (g, i)
+            if f:
+                verbs = {"s": ["%s", "%v"], "d": ["%d", "%v"], "e": ["%v", "%s", "%+v"], "g": ["%v", "%s"]}
+                fmt = token + " " + _log_text(rng) + "".join(rng.choice([": ", " ", "|", " -> "]) + rng.choice(verbs[a["k"]]) for a in args)
+                prog.append({"l": l, "lv": lvl, "f": True, "fmt": fmt, "args": args})
+            else:
+                prog.append({"l": l, "lv": lvl, "f": False, "fmt": "", "args": [{"k": "s", "s": token, "n": 0}] + args})
+        progs.append(prog)
+    return {"id": cid, "kind": "log", "lv": lv, "loggers": loggers, "progs": progs, "rounds": 30 if quick else 60,
+            "procs": rng.choice([0, 0, 1, 2, 4])}
+
+
+def log_prints(c, o):
+    return LV_NUM[o["lv"]] >= LV_NUM[c["lv"]]
+
+
+def log_message(o):
+    """the text a call prints after the level mark and the prefixes (python rendering of the formats gen_log uses)"""
+    vals = [str(a["n"]) if a["k"] == "d" else a["s"] for a in o["args"]]
+    if not o["f"]:
+        return " ".join(vals)      # Println: operands separated by blanks
+    out, it = "", iter(vals)
+    i, fmt = 0, o["fmt"]
+    while i < len(fmt):
+        if fmt[i] == "%":
+            j = i + 1
+            if fmt[j] == "+":
+                j += 1
+            out += next(it)
+            i = j + 1
+        else:
+            out += fmt[i]
+            i += 1
+    return out
+
+
+def log_ref_ok(c, ref):
+    """the sequential reference run: exactly the calls the level filter lets through, in order, each as
+    <colour>[LEVEL]<colour> [prefix]... text"""
+    import re
+    want = [(g, i, o) for g, p in enumerate(c["progs"]) for i, o in enumerate(p) if log_prints(c, o)]
+    if len(ref or []) != len(want):
+        return False
+    for line, (g, i, o) in zip(ref, want):
+        chain = c["loggers"][o["l"] - 1] if o["l"] else []
+        tail = "".join(" [%s]" % x for x in chain) + " " + log_message(o)
+        if not line.endswith(tail):
+            return False
+        head = line[:len(line) - len(tail)]
+        if not re.fullmatch(r"(?:\x1b\[[0-9;]*m)*" + re.escape(LV_MARK[o["lv"]]) + r"(?:\x1b\[[0-9;]*m)*", head):
+            return False
+    return len(set(ref)) == len(ref)
+
+
+def log_term(k, c, o):
+    oc = {"ok": 0, "race": 1}.get(o["outcome"], 2)
+    G = len(c["progs"])
+    owner, progs, n = {}, [], 0     # line number (1-based position in the reference run) -> goroutine
+    for g, p in enumerate(c["progs"]):
+        mine = []
+        for op in p:
+            if log_prints(c, op):
+                n += 1
+                owner[n] = g
+                mine.append((op["l"], n))
+        progs.append(mine)
+    if oc != 0:
+        return "CLog %d (mkLog %d false [] [])" % (k, oc)
+    rounds = [[(owner.get(x, G), x if x in owner else 0) for x in r] for r in (o.get("rounds") or [])]
+    if len(rounds) != c["rounds"]:
+        return "CLog %d (mkLog 2 false [] [])" % k   # incomplete observation
+    pl = lambda l: vlib.coq_list("(%d, %d)" % p for p in l)
+    return "CLog %d (mkLog 0 %s %s %s)" % (k, vlib.coq_bool(log_ref_ok(c, o.get("ref"))), vlib.coq_list(pl(p) for p in progs),
+                                          vlib.coq_list(pl(r) for r in rounds))
 
 
 def scan_records(c, ob):
@@ -561,7 +725,7 @@ def stress_term(k, c, outcome, obs, literal=False):
 
 
 def stress_payload(c):
-    return {"id": c["id"], "target": c["target"], "nkeys": c["nkeys"], "init": c["init"], "progs": c["progs"],
+    return {"id": c["id"], "target": c["target"], "ctor": c.get("ctor", ""), "nkeys": c["nkeys"], "init": c["init"], "progs": c["progs"],
             "fin": c["fin"], "rounds": c["rounds"] * (c.get("plain_factor", 1) if c.get("build") != "race" else 1),
             "timed": bool(c.get("timed")), "emit": c.get("emit", 0)}
 
@@ -641,6 +805,7 @@ def evaluate(ctx, bins, cases, tag):
     races = [c for c in cases if c["kind"] == "race"]
     strs = [c for c in cases if c["kind"] == "stress"]
     scans = [c for c in cases if c["kind"] == "scan"]
+    logs = [c for c in cases if c["kind"] == "log"]
     by_id, terms, sterms = {}, [], []
     if seqs:
         rc, res, raw = vlib.run_json(binp, {"mode": "seq", "seq": seqs}, timeout=600)
@@ -678,7 +843,30 @@ def evaluate(ctx, bins, cases, tag):
                 oc = 3
             by_id[k] = {"case": c, "outcome": o["outcome"], "run_err": o["run_err"], "n_errs": o["n_errs"],
                         "report": o["report"]}
-            terms.append("CRace %d %d %d" % (k, oc, len(c["fail_scan"])))
+            terms.append("CRace %d %d %d %d" % (k, oc, len(c["fail_scan"]), race_nlogged(c)))
+    if logs:
+        # the library's logger shared by goroutines: every case in a child process, in the normal build and in the -race build
+        from concurrent.futures import ThreadPoolExecutor
+        groups = [(binp, [c for c in logs if c.get("build") != "race"]), (binrace, [c for c in logs if c.get("build") == "race"])]
+
+        def golog(g):
+            if not g[1]:
+                return (0, {"outs": []}, "")
+            pay = [dict({x: c[x] for x in ("id", "lv", "loggers", "progs", "procs")},
+                        rounds=c["rounds"] if c.get("build") != "race" else max(4, c["rounds"] // 4)) for c in g[1]]
+            return vlib.run_json(g[0], {"mode": "log", "log": pay, "par": 4}, timeout=1500)
+
+        with ThreadPoolExecutor(max_workers=2) as ex:
+            results = list(ex.map(golog, groups))
+        for (_, cs), (rc, res, raw) in zip(groups, results):
+            if res is None:
+                raise vlib.GoBuildError("./cmd/c20 (log run)", raw[-3000:])
+            for c, o in zip(cs, res["outs"]):
+                k = c["id"] + 1
+                cc = c if c.get("build") != "race" else dict(c, rounds=max(4, c["rounds"] // 4))
+                by_id[k] = {"case": c, "outcome": o["outcome"], "report": o.get("report", ""), "reference_lines": o.get("ref"),
+                            "rounds": o.get("rounds"), "unknown_lines": o.get("bad")}
+                terms.append(log_term(k, cc, o))
     if strs:
         # one Coq case per DISTINCT observation of a stress case; ids follow the ids of the other cases
         nxt = max(c["id"] for c in cases) + 2
@@ -890,6 +1078,53 @@ def scan_distribution(by_id):
     return d
 
 
+def construction_distribution(by_id):
+    """how the containers of the scenarios were obtained, per stream (a stress / log scenario run in both builds counts once per
+    build); `zero_value_and_untouched_before_the_barrier`: declared containers whose first operations are the concurrent ones"""
+    d = {"by_stream_and_constructor": {}, "zero_value_and_untouched_before_the_barrier": 0, "free_histories_with_barrier_start": 0}
+    seen = set()
+    for i in by_id:
+        c = by_id[i]["case"]
+        if c["kind"] not in ("seq", "hist", "stress", "scan") or (c["kind"], c["id"]) in seen:
+            continue
+        seen.add((c["kind"], c["id"]))
+        k = "%s/%s/%s" % (c["kind"], c["target"], c.get("ctor", "new"))
+        d["by_stream_and_constructor"][k] = d["by_stream_and_constructor"].get(k, 0) + 1
+        if c["kind"] in ("stress", "scan") and c.get("ctor", "new") != "new" and not c["init"]:
+            d["zero_value_and_untouched_before_the_barrier"] += 1
+        if c["kind"] == "hist" and c.get("barrier"):
+            d["free_histories_with_barrier_start"] += 1
+            if c.get("ctor", "new") != "new":
+                d["zero_value_and_untouched_before_the_barrier"] += 1
+    return d
+
+
+def log_distribution(by_id):
+    es = [by_id[i] for i in by_id if by_id[i]["case"]["kind"] == "log"]
+    d = {"child_runs": len(es), "by_build": {}, "root_level": {}, "goroutines": {}, "gomaxprocs": {}, "outcomes": {},
+         "rounds_run": 0, "lines_checked": 0, "calls_per_round": 0, "calls_that_print_per_round": 0,
+         "calls_with_a_yielding_operand_per_round": 0, "scenarios_with_all_goroutines_on_one_logger": 0}
+
+    def bump(m, k, n=1):
+        m[k] = m.get(k, 0) + n
+
+    for e in es:
+        c = e["case"]
+        bump(d["by_build"], c.get("build", "plain"))
+        bump(d["root_level"], c["lv"])
+        bump(d["goroutines"], str(len(c["progs"])))
+        bump(d["gomaxprocs"], str(c["procs"]))
+        bump(d["outcomes"], e["outcome"])
+        d["rounds_run"] += len(e.get("rounds") or [])
+        d["lines_checked"] += sum(len(r) for r in (e.get("rounds") or []))
+        ops = [o for p in c["progs"] for o in p]
+        d["calls_per_round"] += len(ops)
+        d["calls_that_print_per_round"] += sum(1 for o in ops if log_prints(c, o))
+        d["calls_with_a_yielding_operand_per_round"] += sum(1 for o in ops if any(a["k"] in "eg" for a in o["args"]))
+        d["scenarios_with_all_goroutines_on_one_logger"] += len({o["l"] for o in ops}) == 1
+    return d
+
+
 def case_size(c):
     cc = c["case"]
     if cc["kind"] == "seq":
@@ -900,7 +1135,9 @@ def case_size(c):
         return (3, c.get("outcome") != "ok", sum(len(p) for p in cc["progs"]))
     if cc["kind"] == "scan":
         return (4, c.get("outcome") != "ok", sum(len(p) for p in cc["progs"]))
-    return (2, cc["n"] + cc["closers"])
+    if cc["kind"] == "log":   # spliced lines (normal build) before a race report
+        return (2, c.get("outcome") != "ok", sum(len(p) for p in cc["progs"]))
+    return (2, False, cc["n"] + cc["closers"])
 
 
 def run(ctx):
@@ -912,32 +1149,42 @@ def run(ctx):
     bins = (binp, binrace)
     nseq, nhist, nrace, nstress = (1000, 600, 60, 90) if ctx.quick() else (10000, 5000, 500, 1000)
     nscan = 18 if ctx.quick() else 150
+    nlog = 16 if ctx.quick() else 150
     cases = []
     if ctx.replay:
         r = json.load(open(ctx.replay))
         cc = r.get("case", {}).get("case")
         cases = [dict(cc, id=0)] if cc else []
     if not cases:
-        for c in load_corpus():    # a stress scenario of the corpus runs in both builds
-            for build in (("plain", "race") if c["kind"] == "stress" else (None,)):
+        for c in load_corpus():    # a stress / log scenario of the corpus runs in both builds
+            for build in (("plain", "race") if c["kind"] in ("stress", "log") else (None,)):
                 cases.append(dict(c, id=len(cases), build=build) if build else dict(c, id=len(cases)))
         for _ in range(nseq):
             cases.append(gen_seq(ctx.rng, len(cases)))
         for _ in range(nhist):
             cases.append(gen_hist(ctx.rng, len(cases)))
-        for i in range(nrace):
-            cases.append(gen_race(ctx.rng, len(cases), force_multi=(i % 4 == 0)))
+        for i in range(nrace):   # every other start / shutdown runs with the library's own logger printing
+            cases.append(gen_race(ctx.rng, len(cases), force_multi=(i % 4 == 0), logged=(i % 2 == 1)))
         # every stress scenario runs in the normal build and in the -race build; the first scenarios cover every
         # container x workload combination
-        combos = [(w, t) for w in ("lanes", "disjoint", "shared", "tiny") for t in STRESS_TARGETS]
+        combos = [(w, t, None) for w in ("lanes", "disjoint", "shared", "tiny") for t in STRESS_TARGETS]
+        # ... and every way to obtain a container that has a usable zero value, first on the workloads whose answers
+        # are fully determined (own keys) or fully searched (tiny)
+        combos += [(w, t, ct) for t in ("map", "cset") for ct in CTORS[t][1:] for w in ("tiny", "lanes")]
         for i in range(nstress):
-            w, t = combos[i] if i < len(combos) else (None, None)
-            sc = gen_stress(ctx.rng, 0, workload=w, target=t)
+            w, t, ct = combos[i] if i < len(combos) else (None, None, None)
+            sc = gen_stress(ctx.rng, 0, workload=w, target=t, ctor=ct)
             for build in ("plain", "race"):
                 cases.append(dict(sc, id=len(cases), build=build))
         # timed scans against churn; the first ones cover every container
         for i in range(nscan):
-            cases.append(gen_scan(ctx.rng, len(cases), target=("map", "cset", "gset")[i] if i < 3 else None, quick=ctx.quick()))
+            cases.append(gen_scan(ctx.rng, len(cases), target=("map", "cset", "gset", "map", "cset")[i] if i < 5 else None,
+                                  quick=ctx.quick(), ctor=("new", "new", "new", "var", "field")[i] if i < 5 else None))
+        # the library's logger shared by goroutines: every scenario in the normal build and in the -race build
+        for i in range(nlog):
+            lc = gen_log(ctx.rng, 0, quick=ctx.quick())
+            for build in ("plain", "race"):
+                cases.append(dict(lc, id=len(cases), build=build))
     by_id, M, V, NTI, nev = evaluate(ctx, bins, cases, "main")
     kinds = {}
     for i in by_id:
@@ -972,6 +1219,10 @@ def run(ctx):
                 more.append(dict(sc, id=len(more), build=build))
         for _ in range(20):
             more.append(gen_scan(ctx.rng, len(more), quick=ctx.quick()))
+        for _ in range(20):
+            lc = gen_log(ctx.rng, 0, quick=ctx.quick())
+            for build in ("plain", "race"):
+                more.append(dict(lc, id=len(more), build=build))
         b2, _, V2, _, _ = evaluate(ctx, bins, more, "widen")
         bad = [i for i in V2 if classify_known(b2[i]) is None]
         bad.sort(key=lambda i: case_size(b2[i]))
@@ -1002,10 +1253,24 @@ def run(ctx):
                     cands.append(dict(cc, fail_scan=cc["fail_scan"][:-1]))
                 if cc["closers"]:
                     cands.append(dict(cc, closers=0, fail_close=[]))
+                if cc["closers"] > len(cc["fail_close"]):
+                    cands.append(dict(cc, closers=len(cc["fail_close"]), fail_close=list(range(len(cc["fail_close"])))))
+                if len(cc["fail_close"]) > 2:
+                    cands.append(dict(cc, fail_close=cc["fail_close"][:-1]))
+                if cc.get("log_lv"):
+                    cands.append(dict(cc, log_lv=""))
                 if cc["concurrent"]:
                     cands.append(dict(cc, concurrent=0))
                 if cc["scanners"] > 1:
                     cands.append(dict(cc, scanners=1))
+            elif cc["kind"] == "log":
+                # fewer goroutines, shorter lists; a candidate counts only if it fails again
+                if len(cc["progs"]) > 2:
+                    for g in range(len(cc["progs"])):
+                        cands.append(dict(cc, progs=cc["progs"][:g] + cc["progs"][g + 1:]))
+                if max(len(p) for p in cc["progs"]) > 1:
+                    cands.append(dict(cc, progs=[p[:(len(p) + 1) // 2] for p in cc["progs"]]))
+                    cands.append(dict(cc, progs=[p[len(p) // 2:] for p in cc["progs"]]))
             elif cc["kind"] == "seq":
                 for i in range(len(cc["ops"])):
                     cands.append(dict(cc, ops=cc["ops"][:i] + cc["ops"][i + 1:]))
@@ -1056,9 +1321,9 @@ def run(ctx):
 
     ids = sorted(by_id)
     samples = []
-    for kind in ("seq", "hist", "race", "stress", "scan"):
+    for kind in ("seq", "hist", "race", "stress", "scan", "log"):
         ks = [i for i in ids if by_id[i]["case"]["kind"] == kind]
-        if kind in ("stress", "scan"):   # a small one (the evidence file stays readable)
+        if kind in ("stress", "scan", "log"):   # a small one (the evidence file stays readable)
             ks = sorted(ks, key=lambda i: -sum(len(p) for p in by_id[i]["case"]["progs"]))
         samples += [by_id[i] for i in ks[-1:]]
     tpls = {}
@@ -1075,8 +1340,15 @@ def run(ctx):
                 "(non-trivial: >= 4 ops with a mutation and a read); hist: histories recorded from the real containers with forced "
                 "interleavings - f of LoadOrStoreFn blocks until other threads ran, Range/ForEach callbacks start writers, plus "
                 "free-running threads (non-trivial: two operations of different threads overlap in real time); race: real "
-                "App.Run + App.Close under the Go race detector with failing scanners and failing closers (non-trivial: >= 2 "
-                "scanners fail in the same pass); stress: G goroutines released together by a spin barrier run generated "
+                "App.Run + App.Close under the Go race detector with failing scanners and failing closers, half of them with the "
+                "library's own logger at a level at which it prints what the goroutines report (trace / debug / info / warn / error; "
+                "output to a discarded sink; the scanners then log through a shared syslog.Pref logger too) (non-trivial: >= 2 "
+                "scanners fail in the same pass, or >= 2 goroutines report through the printing logger); log: G goroutines "
+                "released together print through shared syslog loggers (root logger, cached Pref loggers, every level, operands "
+                "whose Error() / String() yields), normal and -race build, every round of the output must be an interleaving of "
+                "the goroutines' line sequences (non-trivial: two goroutines print through the same logger); every container "
+                "is obtained in every legal way (constructor / declared zero value as variable, field, embedded field, slice "
+                "element, new(T), literal), the declared ones mostly untouched before the barrier opens; stress: G goroutines released together by a spin barrier run generated "
                 "operation lists on one shared sync2.Map / ConcurrentSets / generic concurrent set / definition registry in parallel, each scenario in "
                 "a child process in the normal build and in the -race build, several rounds, one Coq case per distinct "
                 "observation (non-trivial: >= 2 goroutines mutate the container); scan: timed histories (a ticket from one atomic "
@@ -1091,6 +1363,17 @@ def run(ctx):
         "traces_validated_against_impl": kinds.get("hist", 0),
         "input_distribution": {"kinds": kinds, "nontrivial_by_kind": nt_kinds, "hist_templates": tpls,
                                "stress": stress_dist, "timed_scans": scan_dist,
+                               "constructions": construction_distribution(by_id),
+                               "library_logger": log_distribution(by_id),
+                               "race_scenarios_by_library_log_level":
+                                   {lv or "silenced": sum(1 for i in by_id if by_id[i]["case"]["kind"] == "race"
+                                                          and by_id[i]["case"].get("log_lv", "") == lv)
+                                    for lv in [""] + sorted(set(LOG_LEVELS))},
+                               "race_scenarios_with_2plus_goroutines_reporting_through_the_printing_logger":
+                                   sum(1 for i in by_id if by_id[i]["case"]["kind"] == "race" and race_nlogged(by_id[i]["case"]) >= 2),
+                               "race_shutdowns_with_2plus_failing_closers_and_printing_logger":
+                                   sum(1 for i in by_id if by_id[i]["case"]["kind"] == "race" and by_id[i]["case"].get("log_lv")
+                                       and not by_id[i]["case"]["fail_scan"] and len(by_id[i]["case"]["fail_close"]) >= 2),
                                "race_scenarios_with_2plus_failing_scanners":
                                    sum(1 for i in by_id if by_id[i]["case"]["kind"] == "race" and len(by_id[i]["case"]["fail_scan"]) >= 2)},
         "footprint": {n: {"vars": [v["name"] for v in f["vars"]], "add_before_go": f["add_before_go"],
